@@ -98,6 +98,12 @@ def _run_chunk(args):
             r["oracle"] = P.oracle(c, io)
         except Exception as exc:  # noqa: BLE001
             r["oracle"] = "oracle raised " + repr(exc)[:300]
+        r["finding"] = None
+        if r["oracle"]:
+            try:
+                r["finding"] = P.finding_key(c, io)
+            except Exception:  # noqa: BLE001
+                r["finding"] = None
         try:
             r["nontrivial"] = bool(P.nontrivial(c, io))
         except Exception:  # noqa: BLE001
@@ -203,11 +209,7 @@ def check(P, prop, tier, seed, t0):
         if r["cmp"] == "amb":
             amb += 1
         if r["oracle"]:
-            key = None
-            try:
-                key = P.finding_key(r["case"], r["impl"])
-            except Exception:  # noqa: BLE001
-                key = None
+            key = r.get("finding")
             if key is not None and key in known:
                 known_hits.setdefault(key, r)
             else:
